@@ -49,7 +49,7 @@ def static_half(ctx, res):
         descs, _, _ = enumerate_with_seeds(["job", "jobout"], ["job-up", "job-holder", "job-outpre"], N=6, k=4, kseed=2, allow=("struct", "pre"))
     with Pool(seeds=[(ctx.seed + i) % 4096 for i in range(16)], init="engines.gwork:init") as pool:
         outs = pool.map("engines.gwork:eval_deps", [{"G": d} for d in descs])
-    n, shapes = 0, set()
+    n, shapes, extra = 0, set(), 0
     for d, o in zip(descs, outs):
         if o.get("skip"):
             continue
@@ -58,13 +58,17 @@ def static_half(ctx, res):
             res.violation("static:submit-raises:" + o["error"].split(":")[0], f"{json.dumps(d)[:500]}: {o['error']}", {"static": True, "G": d, "o": o})
             continue
         shapes.add((len(o["want"]), o["sig"]))
-        if o["got"] != o["want"]:
-            missing = sorted(set(o["want"]) - set(o["got"]))
-            extra = sorted(set(o["got"]) - set(o["want"]))
-            res.violation("static:dependencies-" + ("missing" if missing else "extra"),
+        missing = sorted(set(o["want"]) - set(o["got"]))
+        if missing:
+            res.violation("static:dependencies-missing",
                           f"job.dependencies = {o['got']} but the description implies {o['want']} for {json.dumps(d)[:700]}", {"static": True, "G": d, "o": o})
+        elif set(o["got"]) - set(o["want"]):
+            # more dependencies than the direct upstream set (the implementation also walks the pre-tasks of an upstream *task*, which
+            # are that task's own dependencies already): the property asks for no launch before the dependencies, not for minimality
+            extra += 1
     res.coverage["static_descriptions"] = n
     res.coverage["static_distinct"] = len(shapes)
+    res.coverage["static_with_redundant_dependencies"] = extra
 
 
 def replay(ctx, payload):
